@@ -3,6 +3,7 @@ package c03
 
 import (
 	"fmt"
+	"net"
 	"testing"
 	"time"
 
@@ -52,6 +53,8 @@ type seqCase struct {
 	// HoldsOpen (socket layer, SetAddress over TCP): the controller - which owes no reply - keeps the connection open for 80 % of
 	// the timeout whatever the client does with its end; SetAddress 'succeeds once the request is sent'
 	HoldsOpen bool `json:"peer_holds_connection,omitempty"`
+	// SamePort (socket layer, with FixedPort): the bind port is the port NUMBER of the controller / broadcast address
+	SamePort bool `json:"bind_port_equals_destination_port,omitempty"`
 }
 
 var classNames = []string{"valid", "short", "long", "other-serial", "serial-0", "wrong-code", "wrong-id", "id-0x19", "malformed", "malformed-strict", "two-faults", "foreign"}
@@ -153,6 +156,14 @@ func cfgFor(c seqCase, ep [4]byte, port uint16, timeoutMs int) hook.ClientCfg {
 	if c.FixedPort && c.Layer == "socket" {
 		if p, err := farm.FreePort(cfg.BindIP); err == nil {
 			cfg.BindPort = p
+		}
+		if c.SamePort {
+			// the site uses ONE port number for everything: the client binds the number its controllers listen on (another address)
+			if l, err := net.ListenUDP("udp4", &net.UDPAddr{IP: net.IP(cfg.BindIP[:]), Port: int(port)}); err == nil {
+				l.Close()
+				cfg.BindPort = port
+				ev.Class("socket/bind-port-equals-the-controllers-port", 1)
+			}
 		}
 	}
 	proto := "udp"
@@ -633,6 +644,7 @@ func genSeq(layer string, maxLen int) func(t *rapid.T) seqCase {
 		}
 		if layer == "socket" && c.Call.Op != "SetAddress" {
 			c.FixedPort = rapid.IntRange(0, 2).Draw(t, "fixed.port") == 0
+			c.SamePort = c.FixedPort && rapid.Bool().Draw(t, "same.port")
 			if c.Path == 1 {
 				c.Proto = rapid.SampledFrom([]string{"udp", "udp", "any", "(empty)", "UDP", "auto"}).Draw(t, "proto")
 			}
@@ -768,6 +780,7 @@ func props() []rp.Prop {
 	return []rp.Prop{
 		rp.P[seqCase]{Name: "hook-seq", Checks: ev.Pick(40000, 4000000) / ev.Shards(), Gen: genSeq("hook", 12), Check: check},
 		rp.P[seqCase]{Name: "socket-seq", Checks: ev.Pick(1600, 96000) / ev.Shards(), Gen: genSeq("socket", 6), Sweep: sweepOversize, Check: check},
+		rp.P[stormCase]{Name: "broadcast-storm", Sweep: sweepStorm, Check: checkStorm},
 		rp.P[deadlineCase]{Name: "broadcast-deadline", Checks: ev.Pick(120, 8000) / ev.Shards(), Gen: genDeadline, Check: checkDeadline},
 	}
 }
